@@ -164,8 +164,12 @@ class Explorer:
         cov['max_choice_points_in_one_execution'] = tot['max_cp']
         return tot
 
-def expect_exact(status, out_bytes, stderr_empty=True, allow_inv=False):
-    """Oracle: exactly this exit status and these stdout bytes."""
+def expect_exact(status, out_bytes, stderr_empty=True, allow_inv=0):
+    """Oracle: exactly this exit status and these stdout bytes.
+    allow_inv: bit mask of counter-invariant flags that do not apply (copy mode
+    uses out_slots as a plain counter of buffers in flight which transiently
+    wraps below zero; only the compression/decompression schedulers treat it
+    as a resource)."""
     h = common.fnv64(out_bytes) if out_bytes is not None else None
     n = len(out_bytes) if out_bytes is not None else None
     def oracle(c):
@@ -175,7 +179,7 @@ def expect_exact(status, out_bytes, stderr_empty=True, allow_inv=False):
             return 'ended by %s(%s) instead of exit status %d' % (c['kind'], c['code'], status)
         if c['code'] != status:
             return 'exit status %d instead of %d' % (c['code'], status)
-        if c['inv'] and not allow_inv:
+        if c['inv'] & ~int(allow_inv):
             return 'scheduler counter invariant broken (flags %d)' % c['inv']
         if h is not None and (c['stdout_hash'] != h or c['stdout_len'] != n):
             return 'output differs from the expected %d bytes' % n
